@@ -133,6 +133,7 @@ fn spawn_peer(ep: &str, sock: UnixStream, ctl: Arc<Ctl>) -> std::thread::JoinHan
     std::thread::spawn(move || {
         let mut all: Vec<(Vec<u8>, Vec<i32>)> = Vec::new();
         let mut answered = 0usize;
+        let mut seqno = 0usize;
         let mut reply_ack = ep == "be";
         loop {
             let mut buf = vec![0u8; 70000];
@@ -146,15 +147,22 @@ fn spawn_peer(ep: &str, sock: UnixStream, ctl: Arc<Ctl>) -> std::thread::JoinHan
                     all.push((buf, vec![]));
                 }
             }
-            let (msgs, _) = split_messages(&all);
+            let (msgs, rest) = split_messages(&all);
+            // only the unparsed tail is carried over (re-parsing everything received so far made long free-running cases quadratic)
+            let total: usize = all.iter().map(|c| c.0.len()).sum();
+            let flat: Vec<u8> = all.iter().flat_map(|c| c.0.iter().copied()).collect();
+            all = vec![(flat[total - rest..].to_vec(), vec![])];
+            answered = 0;
             while answered < msgs.len() {
                 let m = &msgs[answered];
                 answered += 1;
+                seqno += 1;
                 let code = m["c"].as_u64().unwrap() as u32;
                 let flags = m["flags"].as_u64().unwrap() as u32;
                 let body = unhex(m["body"].as_str().unwrap());
-                ctl.log(json!({"ev": "peer", "c": code, "seq": answered}));
+                ctl.log(json!({"ev": "peer", "c": code, "seq": seqno}));
                 let mut out: Option<(u32, Vec<u8>)> = None;
+                let mut with_fd = false;
                 match ep.as_str() {
                     "fe" => {
                         if code == 16 && body.len() == 8 {
@@ -171,6 +179,26 @@ fn spawn_peer(ep: &str, sock: UnixStream, ctl: Arc<Ctl>) -> std::thread::JoinHan
                             }
                             36 => out = Some((5, 509u64.to_le_bytes().to_vec())),
                             17 => out = Some((5, 8u64.to_le_bytes().to_vec())),
+                            // GET_CONFIG, GET_INFLIGHT_FD (with a descriptor): the request body comes back
+                            24 => out = Some((5, body.clone())),
+                            31 => {
+                                out = Some((5, body.clone()));
+                                with_fd = true;
+                            }
+                            // SET_DEVICE_STATE_FD: "no descriptor comes back"; CHECK_DEVICE_STATE: fine
+                            42 => out = Some((5, 0x100u64.to_le_bytes().to_vec())),
+                            43 => out = Some((5, 0u64.to_le_bytes().to_vec())),
+                            // GET_SHMEM_CONFIG: one region; GET_SHARED_OBJECT: an empty reply carrying the descriptor
+                            44 => {
+                                let mut b = vec![0u8; 8 + 8 * 256];
+                                b[0] = 1;
+                                b[8..16].copy_from_slice(&0x1000u64.to_le_bytes());
+                                out = Some((5, b));
+                            }
+                            41 => {
+                                out = Some((5, vec![]));
+                                with_fd = true;
+                            }
                             _ => {
                                 if flags & 8 != 0 && reply_ack {
                                     out = Some((5, 0u64.to_le_bytes().to_vec()));
@@ -197,7 +225,9 @@ fn spawn_peer(ep: &str, sock: UnixStream, ctl: Arc<Ctl>) -> std::thread::JoinHan
                     bytes.extend_from_slice(&rflags.to_le_bytes());
                     bytes.extend_from_slice(&(b.len() as u32).to_le_bytes());
                     bytes.extend_from_slice(&b);
-                    if raw_send_all(&sock, &bytes, &[]).is_err() {
+                    let f = if with_fd { Some(memfd("txnreply", 0x1000)) } else { None };
+                    let fds: Vec<i32> = f.iter().map(std::os::unix::io::AsRawFd::as_raw_fd).collect();
+                    if raw_send_all(&sock, &bytes, &fds).is_err() {
                         return;
                     }
                 }
@@ -232,7 +262,7 @@ fn do_call(ep: &Ep, kind: &str, t: u64, var: u64) -> (bool, bool) {
             match kind {
                 // every operation of a kind takes its turn (`var` comes from the case): a lock that one operation bypasses
                 // is only seen when that operation is the one running beside another caller's transaction
-                "reply" => match (t + var) % 5 {
+                "reply" => match (t + var) % 11 {
                     1 => {
                         let r = fe.get_queue_num();
                         (r.is_ok(), r.map(|v| v == 8).unwrap_or(false))
@@ -249,6 +279,36 @@ fn do_call(ep: &Ep, kind: &str, t: u64, var: u64) -> (bool, bool) {
                         let r = fe.get_protocol_features();
                         (r.is_ok(), r.is_ok())
                     }
+                    5 => {
+                        // the peer echoes the request: the payload that comes back is this caller's own
+                        let pay = [t as u8; 8];
+                        let r = fe.get_config(8 * t as u32, 8, VhostUserConfigFlags::WRITABLE, &pay);
+                        (r.is_ok(), r.map(|(c, b)| c.offset == 8 * t as u32 && b == pay).unwrap_or(false))
+                    }
+                    6 => {
+                        let inf = VhostUserInflight { mmap_size: 0x1000 * t, mmap_offset: 0, num_queues: t as u16, queue_size: 8 };
+                        let r = fe.get_inflight_fd(&inf);
+                        (r.is_ok(), r.map(|(i, _f)| i.num_queues == t as u16 && i.mmap_size == 0x1000 * t).unwrap_or(false))
+                    }
+                    7 => {
+                        let r = fe.check_device_state();
+                        (r.is_ok(), r.is_ok())
+                    }
+                    8 => {
+                        let f = memfd("txnstate", 0x1000);
+                        let r = fe.set_device_state_fd(VhostTransferStateDirection::SAVE, VhostTransferStatePhase::STOPPED, f.into());
+                        (r.is_ok(), r.map(|o| o.is_none()).unwrap_or(false))
+                    }
+                    9 => {
+                        let r = fe.get_shmem_config();
+                        (r.is_ok(), r.map(|c| c.nregions == 1).unwrap_or(false))
+                    }
+                    10 => {
+                        let mut u = [0u8; 16];
+                        u[0] = t as u8;
+                        let r = fe.get_shared_object(&VhostUserSharedMsg { uuid: uuid::Uuid::from_bytes(u) });
+                        (r.is_ok(), r.is_ok())
+                    }
                     _ => match fe.get_vring_base(q) {
                         Ok(v) => (true, v == 100 + q as u32),
                         Err(_) => (false, false),
@@ -257,7 +317,22 @@ fn do_call(ep: &Ep, kind: &str, t: u64, var: u64) -> (bool, bool) {
                 _ => {
                     let e = vmm_sys_util::eventfd::EventFd::new(0).unwrap();
                     let f = memfd("txnreg", 0x1000);
-                    let r = match (t + var) % 11 {
+                    let reg = vhost::VhostUserMemoryRegionInfo {
+                        guest_phys_addr: 0x10000 * t,
+                        memory_size: 0x1000,
+                        userspace_addr: 0x7000_0000 + 0x10000 * t,
+                        mmap_offset: 0,
+                        mmap_handle: std::os::unix::io::AsRawFd::as_raw_fd(&f),
+                    };
+                    let r = match (t + var) % 19 {
+                        11 => fe.set_config(8 * t as u32, VhostUserConfigFlags::WRITABLE, &[t as u8; 8]),
+                        12 => fe.add_mem_region(&reg),
+                        13 => fe.remove_mem_region(&reg),
+                        14 => fe.set_inflight_fd(&VhostUserInflight { mmap_size: 0x1000, mmap_offset: 0, num_queues: 1, queue_size: 8 }, std::os::unix::io::AsRawFd::as_raw_fd(&f)),
+                        15 => fe.set_log_base(0x1000, None),
+                        16 => fe.set_log_fd(std::os::unix::io::AsRawFd::as_raw_fd(&e)),
+                        17 => fe.reset_device(),
+                        18 => fe.set_backend_request_fd(&f),
                         1 => fe.set_vring_num(q, 8),
                         2 => fe.set_vring_base(q, 3),
                         3 => fe.set_owner(),
@@ -386,7 +461,18 @@ pub fn run(cases: &[Value], trace: &mut Trace, _seed: u64) {
                 let _ = fe.get_features();
                 let _ = fe.set_features(1 << 30);
                 let _ = fe.get_protocol_features();
-                let _ = fe.set_protocol_features(VhostUserProtocolFeatures::REPLY_ACK | VhostUserProtocolFeatures::MQ | VhostUserProtocolFeatures::CONFIGURE_MEM_SLOTS);
+                let _ = fe.set_protocol_features(
+                    VhostUserProtocolFeatures::REPLY_ACK
+                        | VhostUserProtocolFeatures::MQ
+                        | VhostUserProtocolFeatures::CONFIGURE_MEM_SLOTS
+                        | VhostUserProtocolFeatures::CONFIG
+                        | VhostUserProtocolFeatures::INFLIGHT_SHMFD
+                        | VhostUserProtocolFeatures::BACKEND_REQ
+                        | VhostUserProtocolFeatures::RESET_DEVICE
+                        | VhostUserProtocolFeatures::SHARED_OBJECT
+                        | VhostUserProtocolFeatures::DEVICE_STATE
+                        | VhostUserProtocolFeatures::SHMEM,
+                );
                 if any_ack {
                     fe.set_hdr_flags(VhostUserHeaderFlag::NEED_REPLY);
                 }
